@@ -5,7 +5,7 @@
 # the checks that are not silent.  Expected non-silent pairs (patches that keep
 # their own property but break another one) are listed in seeded/neutral/README.md.
 jobs="${1:-3}"
-cd /verif
+cd "$(dirname "$(realpath "$0")")/.." || exit 2   # the tree this script belongs to (a snapshot under vp run)
 one() {
   d="$1"; name=$(basename $d); id=${name%%-*}
   files=$(grep '^+++ b/' $d/patch.diff | sed 's|+++ b/||' | tr '\n' ' ')
